@@ -246,7 +246,7 @@ Ltac leaf :=
 
 Ltac crush :=
   repeat (match goal with
-  | |- context [match ?s with [] => _ | _ :: _ => _ end] => is_var s; destruct s as [|[| ? | ? | | ? | ] ?]
+  | |- context [match ?s with [] => _ | _ :: _ => _ end] => is_var s; destruct s as [|[| ? | ? | | ? | | ] ?]
   | |- context [if ?b then _ else _] => destruct b eqn:?
   end; cbn beta iota); leaf.
 
@@ -261,7 +261,7 @@ Proof.
   destruct (match cache_get_scheme (cf_flavour cf) c (rq_host rq) with
             | Some SchBasic => _ | Some SchBearer => _ | _ => _ end) as [attempted a1].
   simpl in H1.
-  destruct script as [|[| hdr | id | | sid | ] script1]; try (leaf; fail).
+  destruct script as [|[| hdr | id | | sid | | ] script1]; try (leaf; fail).
   destruct (parse hdr) as [[| |] ps] eqn:Ech; try (leaf; fail).
   - (* Basic *)
     unfold fetch_basic, final_send. crush.
@@ -355,6 +355,7 @@ Definition outcome_ok (cf : config) (rq : request) (evs : list event) (r : resul
   | RErr EFetch => exists s, last evs no_event = (s, AFail) /\ is_reg (s, AFail) = false
   | RErr ERewind => rewind_ok (rq_body rq) = false
   | RErr ECred => cf_cred_err cf (rq_host rq) = true
+  | RErr EShared => True   (* the error of another call's fetch: its cause is in that call's outcome *)
   | RErr ETransport => exists s, last evs no_event = (s, AErr)
   | RBad => True
   end.
@@ -370,7 +371,7 @@ Ltac bleaf :=
 
 Ltac bcrush :=
   repeat (match goal with
-  | |- context [match ?s with [] => _ | _ :: _ => _ end] => is_var s; destruct s as [|[| ? | ? | | ? | ] ?]
+  | |- context [match ?s with [] => _ | _ :: _ => _ end] => is_var s; destruct s as [|[| ? | ? | | ? | | ] ?]
   | |- context [if ?b then _ else _] => destruct b eqn:?
   end; cbn beta iota); bleaf.
 
@@ -381,7 +382,7 @@ Proof.
   unfold do_request.
   destruct (match cache_get_scheme (cf_flavour cf) c (rq_host rq) with
             | Some SchBasic => _ | Some SchBearer => _ | _ => _ end) as [attempted a1].
-  destruct script as [|[| hdr | id | | sid | ] script1]; try (bleaf; fail).
+  destruct script as [|[| hdr | id | | sid | | ] script1]; try (bleaf; fail).
   destruct (parse hdr) as [[| |] ps] eqn:Ech; try (bleaf; fail).
   - unfold fetch_basic, final_send. bcrush.
   - set (scopes := if is_empty (get_param s_scope ps) then _ else _).
@@ -405,7 +406,7 @@ Lemma valid_credentials_succeed clean cf c rq script :
   let '(evs, c', r) := do_request clean parse cf c rq script in
   r <> RBad ->
   rewind_ok (rq_body rq) = true ->
-  r <> RErr ENoCred -> r <> RErr EMissing -> r <> RErr ECred ->
+  r <> RErr ENoCred -> r <> RErr EMissing -> r <> RErr ECred -> r <> RErr EShared ->
   (forall s, ~ In (s, AFail) evs) ->
   (forall s, ~ In (s, AErr) evs) ->
   (forall h a hdr, ~ In (SReg h a true, A401 hdr) evs) ->
@@ -416,8 +417,8 @@ Proof.
   pose proof (do_request_budget clean cf c rq script) as B.
   destruct (do_request clean parse cf c rq script) as [[evs c'] r].
   destruct B as (B1 & B2 & O).
-  intros Hbad Hbody Hnc Hmiss Hce Hfail Herr Hfresh Hknown.
-  destruct r as [[|]|[| | | | |]|]; simpl in O; try congruence.
+  intros Hbad Hbody Hnc Hmiss Hce Hsh Hfail Herr Hfresh Hknown.
+  destruct r as [[|]|[| | | | | |]|]; simpl in O; try congruence.
   - exfalso. destruct O as (h & a & fresh & hdr & L & [->|(ps & P)]).
     + apply (Hfresh h a hdr). apply (last_in _ _ _ L). discriminate.
     + apply (Hknown (SReg h a fresh) hdr ps); auto. apply (last_in _ _ _ L). discriminate.
@@ -453,7 +454,7 @@ Ltac fleaf :=
 
 Ltac fcrush :=
   repeat (match goal with
-  | |- context [match ?s with [] => _ | _ :: _ => _ end] => is_var s; destruct s as [|[| ? | ? | | ? | ] ?]
+  | |- context [match ?s with [] => _ | _ :: _ => _ end] => is_var s; destruct s as [|[| ? | ? | | ? | | ] ?]
   | |- context [if ?b then _ else _] => destruct b eqn:?
   end; cbn beta iota); fleaf.
 
@@ -468,7 +469,7 @@ Proof.
   unfold do_request.
   destruct (match cache_get_scheme (cf_flavour cf) c (rq_host rq) with
             | Some SchBasic => _ | Some SchBearer => _ | _ => _ end) as [attempted a1].
-  destruct script as [|[| hdr | id | | sid | ] script1]; try (fleaf; fail).
+  destruct script as [|[| hdr | id | | sid | | ] script1]; try (fleaf; fail).
   destruct (parse hdr) as [[| |] ps] eqn:Ech; try (fleaf; fail).
   - unfold fetch_basic, final_send. fcrush.
   - set (scopes := if is_empty (get_param s_scope ps) then _ else _).
@@ -535,7 +536,7 @@ Ltac kleaf :=
 
 Ltac kcrush :=
   repeat (match goal with
-  | |- context [match ?s with [] => _ | _ :: _ => _ end] => is_var s; destruct s as [|[| ? | ? | | ? | ] ?]
+  | |- context [match ?s with [] => _ | _ :: _ => _ end] => is_var s; destruct s as [|[| ? | ? | | ? | | ] ?]
   | |- context [if ?b then _ else _] => destruct b eqn:?
   end; cbn beta iota); kleaf.
 
@@ -552,7 +553,7 @@ Proof.
   destruct (match cache_get_scheme (cf_flavour cf) c (rq_host rq) with
             | Some SchBasic => _ | Some SchBearer => _ | _ => _ end) as [attempted a1].
   simpl in H1.
-  destruct script as [|[| hdr | id | | sid | ] script1]; try (kleaf; fail).
+  destruct script as [|[| hdr | id | | sid | | ] script1]; try (kleaf; fail).
   destruct (parse hdr) as [[| |] ps] eqn:Ech; try (kleaf; fail).
   - unfold fetch_basic, final_send. kcrush.
   - cbv zeta. unfold fetch_bearer_plan, final_send.
